@@ -215,6 +215,13 @@ ASSUMPTIONS = ["GUARD FiltersStable: selection / prematch / finalizer requiremen
 OWN_PREFIX = "kopf.zalando.org/"
 LAST_HANDLED = OWN_PREFIX + "last-handled-configuration"
 FINALIZER = "kopf.zalando.org/KopfFinalizerMarker"
+OTHER_FINALIZER = "operators.example.org/held-by-the-operator"
+
+
+def own_fin(sc: dict) -> str:
+    """The framework's finalizer in this scenario: `settings.persistence.finalizer` when configured, else kopf's default
+    name (which is then, on an object that carries it, somebody else's: white-box review C03 m8)."""
+    return (sc.get("settings") or {}).get("persistence.finalizer") or FINALIZER
 KEY = "kopfexamples/ns/a"
 OBJ = "/kopfexamples/"
 KINDS = ["create", "update", "delete", "resume"]
@@ -373,6 +380,7 @@ class Facts:
 
     def __init__(self, sc: dict, tr: dict):
         self.sc, self.tr = sc, tr
+        self.fin = own_fin(sc)
         self.end = float(sc["end"])
         self.tq = float(sc.get("tq", TQ))
         self.t_sil = float(sc["t_silence"])
@@ -399,7 +407,7 @@ class Facts:
                 prev = None
                 continue
             cur = (py_essence(b), bool(b["metadata"].get("deletionTimestamp")))
-            st = (b.get("status"), sorted(x for x in (b["metadata"].get("finalizers") or []) if x != FINALIZER))
+            st = (b.get("status"), sorted(x for x in (b["metadata"].get("finalizers") or []) if x != self.fin))
             if prev is None or cur != prev:
                 self.t_ess, self.rv_ess = float(v["t"]), int(b["metadata"]["resourceVersion"])
             if prev is None or cur != prev or st != prev_st:
@@ -564,7 +572,7 @@ def oracle(ctx: Ctx, sc: dict, tr: dict) -> dict:
         # (white-box review C03: a label flipped after a legitimate release made a deletion handler "match" the last body)
         lr = next((v["body"] for v in reversed(f.hist) if v["body"]["metadata"].get("uid") == f.uid and v["event"] != "DELETED"
                    and v["body"]["metadata"].get("deletionTimestamp")
-                   and FINALIZER in (v["body"]["metadata"].get("finalizers") or [])), lb)
+                   and f.fin in (v["body"]["metadata"].get("finalizers") or [])), lb)
         for h in _changing(sc):
             if h["kind"] != "delete" or h.get("opts", {}).get("optional") or not py_matches(h, lr):
                 continue        # optional deletion handlers run only if the object happens to be still held
@@ -631,7 +639,7 @@ def oracle(ctx: Ctx, sc: dict, tr: dict) -> dict:
 
     def held_while_marked() -> bool:
         return any(v["body"]["metadata"].get("uid") == f.uid and v["body"]["metadata"].get("deletionTimestamp")
-                   and FINALIZER in (v["body"]["metadata"].get("finalizers") or []) for v in f.hist)
+                   and f.fin in (v["body"]["metadata"].get("finalizers") or []) for v in f.hist)
 
     if f.final is None:
         out["class"] = "gone"
@@ -642,7 +650,7 @@ def oracle(ctx: Ctx, sc: dict, tr: dict) -> dict:
         return out
     if f.marked:
         fins = f.final["metadata"].get("finalizers") or []
-        if FINALIZER in fins:
+        if f.fin in fins:
             if f.idle_fns:
                 fail("the deletion handlers wait for a retry that never comes: the last cycle's patch held only functions that produced "
                      "no request, the sleep and the touch were skipped", {**rep, "final": f.final}, SIG_N1, tag="C03-N1")
@@ -674,7 +682,13 @@ def oracle(ctx: Ctx, sc: dict, tr: dict) -> dict:
         ann = f.final["metadata"].get("annotations") or {}
         left = [h for h in _all_ids(sc) if OWN_PREFIX + h.replace("/", ".") in ann]
         for h in left:
-            if namesake_child(h):
+            if f.blind:
+                # no handler's filters accept the object (any more): blindness comes before the FREE purge (Lean:
+                # blind_left_alone vs. free_purges, which has `prematch`) — the open finding C03-F2, not the repaired N4
+                fail(f"progress record of handler {h} remains on the object marked for deletion, held by a foreign finalizer only, "
+                     f"that no handler's filters accept any more (the framework is blind to it)",
+                     {**rep, "annotations": sorted(ann), "finalizers": fins}, SIG_F2, about=("record", h), tag="C03-F2")
+            elif namesake_child(h):
                 fail(f"progress record of sub-handler {h} remains on the object marked for deletion and held by a foreign finalizer "
                      f"only: its parent's id is registered for several causes; the parent's record that referenced it was left out "
                      f"(with its subrefs) when the namesake started from scratch",
@@ -937,7 +951,7 @@ def abstract_tail(sc: dict, tr: dict, cap: int) -> tuple[list | None, Any]:
         return None, "fault-window-in-tail"   # the closing edit of the window had no effect (e.g. the object was gone by then)
     if f.cross_uid:
         return None, "cross-uid-write"      # not silent: a write of the deleted predecessor's cycle landed on this object
-    foreign = any(x != FINALIZER for x in (f.last_body["metadata"].get("finalizers") or []))
+    foreign = any(x != f.fin for x in (f.last_body["metadata"].get("finalizers") or []))
     blind = not any(py_matches(h, f.last_body) for h in _changing(sc))
     # the tail: the last incarnation's cycles on bodies that carry the last external write
     cycles = [c for c in tr["cycles"] if c["uid"] == f.uid and c["inc"] == f.last_inc and c["t0"] >= f.t_for
@@ -1121,7 +1135,7 @@ def abstract_tail(sc: dict, tr: dict, cap: int) -> tuple[list | None, Any]:
         if k + 1 < n:
             nxt = cycles[k + 1]
             passes[k]["base"] = "none" if nxt["cause"]["old_absent"] else ("diff" if nxt["cause"]["diff"] else "same")
-            passes[k]["blocked"] = FINALIZER in (nxt["body"]["metadata"].get("finalizers") or [])
+            passes[k]["blocked"] = f.fin in (nxt["body"]["metadata"].get("finalizers") or [])
             passes[k]["gone"] = False
             passes[k]["pending"] = True
         else:
@@ -1135,7 +1149,7 @@ def abstract_tail(sc: dict, tr: dict, cap: int) -> tuple[list | None, Any]:
             else:
                 b = py_base(f.final)
                 passes[k]["base"] = "none" if b is None else ("same" if b == py_essence(f.final) else "diff")
-                passes[k]["blocked"] = FINALIZER in (f.final["metadata"].get("finalizers") or [])
+                passes[k]["blocked"] = f.fin in (f.final["metadata"].get("finalizers") or [])
     p0 = c0.get("pcc")
     mb = c0.get("mem_before")
     if p0 is None and not blind and fin_turn(c0) is None and carried == "none" and inconsistent is None:
@@ -1158,7 +1172,7 @@ def abstract_tail(sc: dict, tr: dict, cap: int) -> tuple[list | None, Any]:
         "noticed": bool(mb["noticed_by_listing"]) if mb else c0["event_type"] is None,
         "fullyHandled": bool(mb["fully_handled_once"]) if mb else False,
         "marked": bool(c0["body"]["metadata"].get("deletionTimestamp")),
-        "blocked": FINALIZER in (c0["body"]["metadata"].get("finalizers") or []),
+        "blocked": f.fin in (c0["body"]["metadata"].get("finalizers") or []),
         "changeReq": change_req, "foreignFins": foreign,
         "constPatch": const_patch, "carried": carried, "inconsistent": inconsistent,
         "resumed": sorted((mb or {}).get("resumed_handlers") or []),
@@ -1384,7 +1398,27 @@ def gen_scenario(rng: Any, i: int) -> dict:
     sc["tq"] = TQ
     sc["end"] = t + 48.0 + 1.5 * fail_time + 2 * TQ
     add_spawning(sc, i, 0.12)
+    add_configured(sc, i, 0.1)
     return sc
+
+
+def add_configured(sc: dict, i: int, p: float) -> None:
+    """Configurations (white-box review C03 m8; drawn from a generator of its own): `settings.persistence.finalizer` set to
+    another name than kopf's default — in half of them the object also carries kopf's DEFAULT name as somebody else's
+    finalizer (an operator that was renamed, a second operator): it holds the object after the framework's release."""
+    import random
+    r = random.Random(i * 104729 + 7)
+    if r.random() >= p:
+        return
+    sc.setdefault("settings", {})["persistence.finalizer"] = OTHER_FINALIZER
+    sc["family3"] = "configured-finalizer"
+    if r.random() < 0.5:
+        for e in list(sc.get("timeline", [])) + [[0, "create", o["name"], o.setdefault("body", {"spec": {"x": 0}})] for o in sc.get("objects", [])]:
+            if e[1] == "create" and len(e) > 3 and isinstance(e[3], dict):
+                md = e[3].setdefault("metadata", {})
+                if FINALIZER not in (md.get("finalizers") or []):
+                    md["finalizers"] = list(md.get("finalizers") or []) + [FINALIZER]
+        sc["family3"] = "configured-finalizer+default-name-is-foreign"
 
 
 def add_spawning(sc: dict, i: int, p: float) -> None:
@@ -1543,6 +1577,7 @@ def gen_deselect(rng: Any, i: int) -> dict:
     sc["tq"] = TQ
     sc["end"] = t + 48.0 + 1.5 * fail_time + 2 * TQ
     add_spawning(sc, i, 0.1)
+    add_configured(sc, i, 0.08)
     return sc
 
 
@@ -1615,6 +1650,8 @@ def _evaluate(ctx: Ctx, scenarios: list[dict], tie: bool = True) -> None:
         ctx.count("outstanding", o.get("outstanding"))
         if sc.get("family"):
             ctx.count("family_class", f"{sc['family']}:{o['class']}")
+        if sc.get("family3"):
+            ctx.count("family_class", f"{sc['family3']}:{o['class']}")
         if sc.get("family2"):
             sp = next((h for h in sc["handlers"] if h["kind"] in ("timer", "daemon")), {})
             relist = any(e[1] == "cut" and len(e) > 2 for e in sc.get("timeline", []))
